@@ -23,6 +23,10 @@ type driverSpec struct {
 // runReplayDriver replays the verifier's counterexample (or a bounded search for a
 // failing input) against the real code with `go test -overlay`; nothing is written to the repo.
 func runReplayDriver(e *Engine, verif, repo, prop string, o *Obligation, rec map[string]interface{}) bool {
+	if os.Getenv("GOVC_NO_REPLAY") != "" {
+		rec["replay"] = "replay disabled for this run (mutation campaign)"
+		return false
+	}
 	data, err := os.ReadFile(filepath.Join(verif, "replay", "drivers.json"))
 	if err != nil {
 		rec["replay"] = "no replay drivers registered"
